@@ -113,3 +113,130 @@ def random_layout(rng, force=None):
     if not fields:
         fields.append((R.UNSIGNED8, 8))
     return fields
+
+
+# ----------------------------------------------------------------------------- random OD models
+from canmon.ref.od_model import ObjM, OdM, VarM  # noqa: E402
+
+ACCESS = ("rw", "ro", "wo", "const")
+NAME_WORDS = ("Speed", "Position", "Torque", "Mode", "Status", "Control", "Limit", "Gain", "Temp", "Voltage",
+              "Current", "Offset", "Scale", "Count", "Flag", "Config", "Serial", "Name", "Blob", "Time")
+
+
+def random_value(rng, dt, maxlen=24):
+    """A typed value for data type ``dt`` (None is never returned)."""
+    if dt in R.INTEGERS:
+        lo, hi = R.int_range(dt)
+        return rng.choice([lo, hi, 0, 1, hi >> 1, rng.randint(lo, hi), rng.randint(lo, hi) >> rng.randint(0, R.INTEGERS[dt] - 1)])
+    if dt == R.BOOLEAN:
+        return rng.choice([0, 1])
+    if dt == R.REAL32:
+        import struct
+        return struct.unpack("<f", struct.pack("<f", rng.choice([0.0, 1.5, -2.25, 1e10, rng.uniform(-1e4, 1e4)])))[0]
+    if dt == R.REAL64:
+        return rng.choice([0.0, -0.5, 3.141592653589793, 1e-300, rng.uniform(-1e9, 1e9)])
+    n = rng.choice([0, 1, 3, 4, 5, 7, 8, rng.randint(0, maxlen)])
+    if dt == R.VISIBLE_STRING:
+        s = "".join(chr(rng.randint(33, 126)) for _ in range(n))
+        return s
+    if dt == R.UNICODE_STRING:
+        return "".join(chr(rng.choice([rng.randint(33, 126), rng.randint(0xA1, 0x24F), rng.randint(0x3041, 0x3096)])) for _ in range(n))
+    return bytes(rng.getrandbits(8) for _ in range(n))
+
+
+def random_model(rng, n_objects=12, types=None, access=ACCESS, with_values=True, index_ranges=((0x2000, 0x5FFF),),
+                 max_members=6, unique_names=True):
+    types = list(types or R.ALL_TYPES)
+    m = OdM()
+    used_names = set()
+
+    def name(prefix=""):
+        for _ in range(100):
+            nm = (prefix + rng.choice(NAME_WORDS) + " " + rng.choice(NAME_WORDS) + f" {rng.randint(0, 999)}").strip()
+            if nm not in used_names or not unique_names:
+                used_names.add(nm)
+                return nm
+        raise RuntimeError("name space exhausted")
+
+    def var(index, sub, nm):
+        dt = rng.choice(types)
+        v = VarM(index, sub, nm, dt, access=rng.choice(access), pdo=rng.random() < 0.4)
+        if with_values:
+            r = rng.random()
+            if r < 0.55:
+                v.default = random_value(rng, dt)
+            if rng.random() < 0.35:
+                v.value = random_value(rng, dt)
+        return v
+
+    indices = set()
+    while len(indices) < n_objects:
+        lo, hi = rng.choice(index_ranges)
+        indices.add(rng.randint(lo, hi))
+    for index in sorted(indices):
+        kind = rng.choice(["var", "var", "record", "array"])
+        nm = name()
+        if kind == "var":
+            m.add(ObjM("var", index, nm, {0: var(index, 0, nm)}))
+        else:
+            k = rng.randint(1, max_members)
+            members = {0: VarM(index, 0, "Highest sub-index supported" if kind == "record" else "Number of entries",
+                               R.UNSIGNED8, "ro" if rng.random() < 0.7 else "const", default=k)}
+            if kind == "record":
+                subs = sorted(rng.sample(range(1, 0x20), k))
+                for s in subs:
+                    members[s] = var(index, s, name())
+                members[0].default = max(subs)
+            else:
+                tmpl = var(index, 1, name())
+                members[1] = tmpl
+                for s in range(2, k + 1):
+                    v = var(index, s, name())
+                    v.dt = tmpl.dt
+                    if v.default is not None:
+                        v.default = random_value(rng, tmpl.dt)
+                    if v.value is not None:
+                        v.value = random_value(rng, tmpl.dt)
+                    members[s] = v
+            m.add(ObjM(kind, index, nm, members))
+    return m
+
+
+def build_od(model, node_id=None):
+    """Real canopen ObjectDictionary built in code from a model."""
+    od = od_module()
+    d = od.ObjectDictionary()
+    for index in sorted(model.objects):
+        o = model.objects[index]
+
+        def mk(vm):
+            v = od.ODVariable(vm.name, vm.index, vm.sub)
+            v.data_type = vm.dt
+            v.access_type = vm.access
+            v.default = vm.default
+            v.value = vm.value
+            v.min, v.max = vm.lo, vm.hi
+            v.pdo_mappable = vm.pdo
+            v.factor = vm.factor
+            v.unit = vm.unit
+            v.description = vm.description
+            v.storage_location = vm.storage
+            v.relative = vm.relative
+            return v
+        if o.kind == "var":
+            d.add_object(mk(o.var))
+        else:
+            c = (od.ODRecord if o.kind == "record" else od.ODArray)(o.name, index)
+            c.storage_location = o.storage
+            for sub in sorted(o.members):
+                c.add_member(mk(o.members[sub]))
+            d.add_object(c)
+    d.node_id = node_id if node_id is not None else model.node_id
+    d.bitrate = model.bitrate
+    d.comments = model.comments
+    for k, v in model.device_info.items():
+        if k == "allowed_baudrates":
+            d.device_information.allowed_baudrates = set(v)
+        else:
+            setattr(d.device_information, k, v)
+    return d
